@@ -187,7 +187,7 @@ func check(c Case, st *rig.Stats) error {
 	model := ref.NewTable(false)
 	mwObjs := map[int]types.Middleware[*rig.H]{}
 	mk := func(ids []int) []types.Middleware[*rig.H] {
-		var ms []types.Middleware[*rig.H]
+		ms := make([]types.Middleware[*rig.H], 0, len(ids)+3) // spare capacity, like a slice the caller keeps appending to
 		for _, i := range ids {
 			if mwObjs[i] == nil {
 				mwObjs[i] = env.NewMW(fmt.Sprintf("m%d", i))
@@ -227,6 +227,7 @@ func check(c Case, st *rig.Stats) error {
 			for i := range ms {
 				ms[i] = env.NewMW("poison") // the caller reuses its slice: a facade must have copied it
 			}
+			_ = append(ms, env.NewMW("poison"), env.NewMW("poison"), env.NewMW("poison")) // ... and its spare capacity
 			objs = append(objs, n)
 			if len(n.lists) >= 2 {
 				nontriv = true
@@ -455,6 +456,12 @@ func check(c Case, st *rig.Stats) error {
 				if js(a) != js(b) {
 					return rig.Violf("dispatch-differs", "%s: %s %q: facade router %s, desugared router %s", when, m, w, js(a), js(b))
 				}
+			}
+		}
+		for _, q := range [][2]string{{"OPTIONS", "*"}, {"GET", "*"}, {"OPTIONS", ""}} {
+			a, b := probe(fac, q[0], q[1]), probe(des, q[0], q[1])
+			if js(a) != js(b) {
+				return rig.Violf("dispatch-differs", "%s: %s %q: facade router %s, desugared router %s", when, q[0], q[1], js(a), js(b))
 			}
 		}
 		if !cleaned {
